@@ -23,7 +23,7 @@ structure Ctx9 (inp : RunInput) (s : Sys) : Prop where
   a4b : ∀ n nd, s.nodes n = some nd → nd.pc = .afterSelf2 → nd.status ≠ .none
   a6 : ∀ n, (stOf s n).finished = true → cTerm s n ≥ 1
 
-variable {inp : RunInput}
+variable {inp : RunInput} [NoFailDeliver inp]
 
 theorem quiet_not_terminal {e : Ev} (h : e.quiet = true) (t : Name) : Ev.isTerminalOf t e = false := by
   cases e <;> simp [Ev.quiet, Ev.isTerminalOf] at h ⊢
